@@ -4,17 +4,23 @@ package cmd
 
 // C15, the part that lives in cmd/syncer.go, executed for real:
 //
-//   * contend/ident: two hosts' configurations go through the real
-//     config.InitSyncerConfig (whole-config fix) and the real
-//     (*SyncerCmd).runCluster, which derives election key and id and campaigns
-//     through the real redis election against the lease-store double. Monitor:
-//     two different hosts must never both be told leader for the same source
-//     at the same instant (this is where the election identity comes from).
-//   * ticker: the real (*SyncerCmd).clusterTicker under testing/synctest with a
-//     scripted Election; calls, their instants and when/how the syncer's wait
-//     is closed are compared with the Lean model (tickerRun). Monitors: a
-//     renewal that failed (after the retry) must close the wait before the
-//     next tick; a follower that wins must close the wait.
+//   * contend/ident/leasettl: hosts' configurations go through the real
+//     config.InitSyncerConfig (whole-config fix), the real fixConfig and the
+//     REAL (*SyncerCmd).run(): it builds the lease-store client with its own
+//     ttl, registers, and runCluster derives election key and id and campaigns
+//     through the real redis election against the lease-store double (which
+//     holds the reply of that first EVAL while the harness reads the store
+//     and closes the run). Monitors: two different hosts must never both be
+//     told leader for the same source at the same instant; the lease written
+//     to the store must outlast the renew period the ticker uses.
+//   * ticker: the real (*SyncerCmd).clusterTicker (with the real clusterRenew /
+//     clusterCampaign) under testing/synctest with a scripted Election; calls,
+//     their instants and when/how the syncer's wait is closed are compared
+//     with the Lean model (tickerRun) — exact values live in that diff only.
+//     Monitor (what C15 needs, nothing more): while the wait is open, the
+//     instance is never more than one ttl past its last successful renewal.
+//   * shared: one instance's client shared by two elections used concurrently
+//     while a reply is stalled: every caller gets the answer for ITS key.
 //   * a probe measuring whether Renew honours its context deadline when the
 //     lease store stalls (recorded, see the property's assumptions).
 
@@ -23,7 +29,6 @@ import (
 	"encoding/json"
 	"errors"
 	"fmt"
-	"net"
 	"os"
 	"path/filepath"
 	"strings"
@@ -36,58 +41,7 @@ import (
 	"github.com/mgtv-tech/redis-GunYu/pkg/cluster"
 	usync "github.com/mgtv-tech/redis-GunYu/pkg/sync"
 	"github.com/mgtv-tech/redis-GunYu/pkg/vfutil"
-	"github.com/mgtv-tech/redis-GunYu/syncer"
 )
-
-// ------------------------------------------------------------ recording Cluster / Election
-
-type vfC15Cluster struct {
-	inner cluster.Cluster
-	mu    sync.Mutex
-	keys  []string
-	ids   []string
-	after func(role cluster.ClusterRole, err error) // called after the first Campaign
-	roles []cluster.ClusterRole
-	errs  []error
-}
-
-func (c *vfC15Cluster) Close() error { return c.inner.Close() }
-func (c *vfC15Cluster) Register(ctx context.Context, s, i string) error {
-	return c.inner.Register(ctx, s, i)
-}
-func (c *vfC15Cluster) Discover(ctx context.Context, s string) ([]string, error) {
-	return c.inner.Discover(ctx, s)
-}
-func (c *vfC15Cluster) NewElection(ctx context.Context, key, id string) cluster.Election {
-	c.mu.Lock()
-	c.keys = append(c.keys, key)
-	c.ids = append(c.ids, id)
-	c.mu.Unlock()
-	return &vfC15Election{c: c, inner: c.inner.NewElection(ctx, key, id)}
-}
-
-type vfC15Election struct {
-	c     *vfC15Cluster
-	inner cluster.Election
-}
-
-func (e *vfC15Election) Renew(ctx context.Context) error { return e.inner.Renew(ctx) }
-func (e *vfC15Election) Leader(ctx context.Context) (*cluster.RoleInfo, error) {
-	return e.inner.Leader(ctx)
-}
-func (e *vfC15Election) Resign(ctx context.Context) error { return e.inner.Resign(ctx) }
-func (e *vfC15Election) Campaign(ctx context.Context) (cluster.ClusterRole, error) {
-	role, err := e.inner.Campaign(ctx)
-	e.c.mu.Lock()
-	e.c.roles = append(e.c.roles, role)
-	e.c.errs = append(e.c.errs, err)
-	first := len(e.c.roles) == 1
-	e.c.mu.Unlock()
-	if first && e.c.after != nil {
-		e.c.after(role, err)
-	}
-	return role, err
-}
 
 // ------------------------------------------------------------ one host
 
@@ -96,23 +50,27 @@ type vfC15Host struct {
 	peer   string
 }
 
-func (h vfC15Host) yaml(store string, clusterMode bool) string {
+func (h vfC15Host) yaml(store string, clusterMode bool, extra string) string {
 	var sb strings.Builder
 	if h.listen != "" || h.peer != "" {
 		sb.WriteString("server:\n")
 		if h.listen != "" {
-			fmt.Fprintf(&sb, "  listen: %s\n", h.listen)
+			fmt.Fprintf(&sb, "  listen: \"%s\"\n", h.listen)
 		}
 		if h.peer != "" {
-			fmt.Fprintf(&sb, "  listenPeer: %s\n", h.peer)
+			fmt.Fprintf(&sb, "  listenPeer: \"%s\"\n", h.peer)
 		}
 	}
 	fmt.Fprintf(&sb, "input:\n  redis:\n    addresses: [%s]\n", store)
-	sb.WriteString("output:\n  redis:\n    addresses: [127.0.0.1:1]\n")
+	fmt.Fprintf(&sb, "output:\n  redis:\n    addresses: [%s]\n", store)
 	sb.WriteString("channel:\n  type: memory\n")
 	sb.WriteString("log:\n  level: error\n")
 	if clusterMode {
-		sb.WriteString("cluster:\n  groupName: g1\n  leaseTimeout: 3s\n")
+		sb.WriteString("cluster:\n  groupName: g1\n")
+		if extra == "" {
+			extra = "  leaseTimeout: 3s\n"
+		}
+		sb.WriteString(extra)
 	}
 	return sb.String()
 }
@@ -121,29 +79,22 @@ type vfC15HostRun struct {
 	accepted bool
 	cfgErr   string
 	peer     string // Server.ListenPeer after fix
-	id       string // what runCluster passed to NewElection
-	key      string
-	role     cluster.ClusterRole
-	err      error
-	ran      bool // runCluster reached a campaign
-}
-
-func vfC15Unspec(addr string) bool {
-	host, _, err := net.SplitHostPort(addr)
-	if err != nil || host == "" {
-		return true
-	}
-	ip := net.ParseIP(host)
-	return ip != nil && ip.IsUnspecified()
+	ran      bool   // run() reached its first campaign
+	key      string // KEYS[1] of that campaign
+	id       string // ARGV[1]
+	leader   bool   // the script answered 1 (the glue turns exactly that into RoleLeader: pkg/cluster harness)
+	ttlMs    int64  // lifetime of the lease as written to the store
+	renew    time.Duration
 }
 
 // runHost loads the host's configuration with the real whole-config fix and,
-// in cluster mode, runs the real runCluster until its first campaign returned.
-func vfC15RunHost(t *testing.T, st *cluster.VerifLeaseStore, dir string, h vfC15Host, clusterMode bool) vfC15HostRun {
+// in cluster mode, runs the REAL fixConfig + run() until the reply of its
+// first campaign, which the lease store holds while the run is closed.
+func vfC15RunHost(t *testing.T, st *cluster.VerifLeaseStore, dir string, yaml string) vfC15HostRun {
 	var r vfC15HostRun
 	*config.GetSyncerConfig() = config.SyncConfig{}
 	path := filepath.Join(dir, "cfg.yaml")
-	if err := os.WriteFile(path, []byte(h.yaml(st.Addr(), clusterMode)), 0o644); err != nil {
+	if err := os.WriteFile(path, []byte(yaml), 0o644); err != nil {
 		t.Fatal(err)
 	}
 	if err := config.InitSyncerConfig(path); err != nil {
@@ -156,34 +107,39 @@ func vfC15RunHost(t *testing.T, st *cluster.VerifLeaseStore, dir string, h vfC15
 	if sc.Cluster == nil {
 		return r
 	}
-	// cmd/syncer.go run(): ttl := int(LeaseTimeout / time.Second); NewRedisCluster(ctx, *Input.Redis, ttl)
-	runWait := usync.NewWaitCloser(nil)
-	ttl := int(sc.Cluster.LeaseTimeout / time.Second)
-	inner, err := cluster.NewRedisCluster(runWait.Context(), *sc.Input.Redis, ttl)
-	if err != nil {
-		t.Fatalf("NewRedisCluster: %v", err)
-	}
-	rec := &vfC15Cluster{inner: inner}
-	rec.after = func(role cluster.ClusterRole, err error) { runWait.Close(nil) }
-	in := *sc.Input.Redis
-	in.SetClusterShards([]*config.RedisClusterShard{{Master: config.RedisNode{Address: in.Address()}}})
+	r.renew = sc.Cluster.LeaseRenewInterval
 	cmd := NewSyncerCmd()
-	cmd.runCluster(runWait, rec, []syncer.SyncerConfig{{Input: in, Output: *sc.Output.Redis, Channel: *sc.Channel}})
-	done := make(chan struct{})
-	go func() { runWait.WgWait(); close(done) }()
+	if err := cmd.fixConfig(); err != nil {
+		t.Fatalf("fixConfig: %v", err)
+	}
+	evalsBefore := st.VerifEvals()
+	held, release := st.VerifHoldEvalReply()
+	done := make(chan error, 1)
+	go func() { done <- cmd.run() }()
 	select {
-	case <-done:
+	case <-held:
+		keys, argv, reply, ok := st.VerifLastEval()
+		if len(keys) == 1 && len(argv) >= 1 {
+			r.ran, r.key, r.id = true, keys[0], argv[0]
+			r.leader = ok && reply == 1
+			if _, exp, live := st.VerifLive(r.key); live {
+				r.ttlMs = exp - st.VerifNow()
+			}
+		}
+		cmd.getRunWait().Close(nil)
+		release()
+		select {
+		case <-done:
+		case <-time.After(20 * time.Second):
+			t.Fatalf("run() did not return after its run scope was closed")
+		}
+	case err := <-done:
+		release()
+		if st.VerifEvals() != evalsBefore {
+			t.Fatalf("run() returned (%v) although a campaign was in flight", err)
+		}
 	case <-time.After(20 * time.Second):
-		t.Fatalf("runCluster did not return")
-	}
-	inner.Close()
-	rec.mu.Lock()
-	defer rec.mu.Unlock()
-	if len(rec.ids) > 0 {
-		r.id, r.key = rec.ids[0], rec.keys[0]
-	}
-	if len(rec.roles) > 0 {
-		r.ran, r.role, r.err = true, rec.roles[0], rec.errs[0]
+		t.Fatalf("run() neither campaigned nor returned")
 	}
 	return r
 }
@@ -277,11 +233,16 @@ func TestVerifC15Cmd(t *testing.T) {
 	// ---- election identity: every pair of host configurations
 	type pair struct{ a, b vfC15Host }
 	listens := func(h int) []string {
-		// explicitly configured addresses are host specific (two hosts that are
-		// explicitly given the same address are an operator error outside the claim)
-		return []string{"", fmt.Sprintf("10.0.0.%d:18001", h+1), "0.0.0.0:18001", fmt.Sprintf("127.0.0.1:1800%d", h+1), ":18001"}
+		// explicitly configured strings are host specific: the election id IS the
+		// configured peer string, two hosts given the same string (say both
+		// `localhost:18001`) are one contender — an assumption of the property,
+		// not something a configuration check can see.
+		return []string{"", fmt.Sprintf("10.0.0.%d:18001", h+1), "0.0.0.0:18001", fmt.Sprintf("127.0.0.1:1800%d", h+1), ":18001",
+			fmt.Sprintf("localhost:1800%d", h+1)}
 	}
-	peers := func(h int) []string { return []string{"", fmt.Sprintf("10.0.0.%d:18002", h+1), "0.0.0.0:18002"} }
+	peers := func(h int) []string {
+		return []string{"", fmt.Sprintf("10.0.0.%d:18002", h+1), "0.0.0.0:18002", fmt.Sprintf("gunyu-%d.internal:18002", h+1), "[::]:18002"}
+	}
 	var hostsA, hostsB []vfC15Host
 	for _, l := range listens(0) {
 		for _, p := range peers(0) {
@@ -298,10 +259,6 @@ func TestVerifC15Cmd(t *testing.T) {
 		if clusterMode {
 			cl = 1
 		}
-		unspec := 0
-		if vfC15Unspec(run.peerOrDerived(h)) {
-			unspec = 1
-		}
 		out := "refused"
 		if run.accepted {
 			id := run.peer
@@ -310,12 +267,12 @@ func TestVerifC15Cmd(t *testing.T) {
 			}
 			out = "id=" + vfutil.HexS(id)
 		}
-		s.Op(fmt.Sprintf("ident %d %d %s %s %d", idx, cl, vfutil.HexS(h.listen), vfutil.HexS(h.peer), unspec), fmt.Sprintf("#%d %s", idx, out))
+		s.Op(fmt.Sprintf("ident %d %d %s %s", idx, cl, vfutil.HexS(h.listen), vfutil.HexS(h.peer)), fmt.Sprintf("#%d %s", idx, out))
 		idx++
 	}
-	// replay of a recorded violation: only that pair of hosts / that ticker script
+	// replay of a recorded violation: only that pair of hosts / ticker script / lease configuration
 	var replayPair *pair
-	replayTicker := ""
+	replayTicker, replayYaml := "", ""
 	if p := os.Getenv("VERIF_REPLAY"); p != "" {
 		var rec struct {
 			Replay map[string]interface{} `json:"replay"`
@@ -331,32 +288,35 @@ func TestVerifC15Cmd(t *testing.T) {
 			if op, ok := rec.Replay["ticker"].(string); ok {
 				replayTicker = op
 			}
-			if !okA && replayTicker == "" {
+			if y, ok := rec.Replay["cluster_yaml"].(string); ok {
+				replayYaml = y
+			}
+			if replayPair == nil && replayTicker == "" && replayYaml == "" {
 				return // a replay for another C15 harness
 			}
 		}
 	}
-	if replayPair != nil || replayTicker != "" {
+	replaying := replayPair != nil || replayTicker != "" || replayYaml != ""
+	if replaying {
 		hostsA, hostsB = nil, nil
 	}
 	for _, clusterMode := range []bool{true, false} {
 		for _, h := range hostsA {
 			st.VerifReset(1000)
-			ident(h, clusterMode, vfC15RunHost(t, st, dir, h, clusterMode))
+			ident(h, clusterMode, vfC15RunHost(t, st, dir, h.yaml(st.Addr(), clusterMode, "")))
 		}
 	}
 	var pairs []pair
 	if replayPair != nil {
 		pairs = append(pairs, *replayPair)
 	}
-	for _, l := range vfutil.Corpus("C15") { // witnesses first
-		if replayPair != nil || replayTicker != "" {
-			break
-		}
-		f := strings.Fields(l)
-		if len(f) == 5 && f[0] == "contend" {
-			pairs = append(pairs, pair{vfC15Host{string(vfutil.UnHex(f[1])), string(vfutil.UnHex(f[2]))},
-				vfC15Host{string(vfutil.UnHex(f[3])), string(vfutil.UnHex(f[4]))}})
+	if !replaying {
+		for _, l := range vfutil.Corpus("C15") { // witnesses first
+			f := strings.Fields(l)
+			if len(f) == 5 && f[0] == "contend" {
+				pairs = append(pairs, pair{vfC15Host{string(vfutil.UnHex(f[1])), string(vfutil.UnHex(f[2]))},
+					vfC15Host{string(vfutil.UnHex(f[3])), string(vfutil.UnHex(f[4]))}})
+			}
 		}
 	}
 	for _, a := range hostsA {
@@ -364,46 +324,141 @@ func TestVerifC15Cmd(t *testing.T) {
 			pairs = append(pairs, pair{a, b})
 		}
 	}
-	{
-		for _, pr := range pairs {
-			a, b := pr.a, pr.b
-			st.VerifReset(1000)
-			ra := vfC15RunHost(t, st, dir, a, true)
-			rb := vfC15RunHost(t, st, dir, b, true) // same instant on the store's clock: a's lease is unexpired
-			replay := map[string]interface{}{
-				"hostA": map[string]string{"server.listen": a.listen, "server.listenPeer": a.peer},
-				"hostB": map[string]string{"server.listen": b.listen, "server.listenPeer": b.peer},
-				"cluster": "groupName g1, leaseTimeout 3s", "idA": ra.id, "idB": rb.id, "key": ra.key,
+	for _, pr := range pairs {
+		a, b := pr.a, pr.b
+		st.VerifReset(1000)
+		ra := vfC15RunHost(t, st, dir, a.yaml(st.Addr(), true, ""))
+		rb := vfC15RunHost(t, st, dir, b.yaml(st.Addr(), true, "")) // same instant on the store's clock: a's lease is unexpired
+		replay := map[string]interface{}{
+			"hostA": map[string]string{"server.listen": a.listen, "server.listenPeer": a.peer},
+			"hostB": map[string]string{"server.listen": b.listen, "server.listenPeer": b.peer},
+			"cluster": "groupName g1, leaseTimeout 3s", "idA": ra.id, "idB": rb.id, "key": ra.key,
+		}
+		s.Op(fmt.Sprintf("contend %d %s %s %s %s", idx, vfutil.HexS(a.listen), vfutil.HexS(a.peer), vfutil.HexS(b.listen), vfutil.HexS(b.peer)))
+		idx++
+		switch {
+		case !ra.accepted || !rb.accepted:
+			s.Count("contend_config_refused")
+		case !ra.ran || !rb.ran:
+			s.Violate("run-did-not-campaign", "run() returned without campaigning", replay)
+		default:
+			s.Count("contend_both_campaigned")
+			s.Distinct(fmt.Sprintf("%v|%v", a, b))
+			if ra.key == rb.key && ra.leader && rb.leader {
+				s.Violate("two-hosts-told-leader",
+					fmt.Sprintf("host A (listen=%q listenPeer=%q) and host B (listen=%q listenPeer=%q) both campaigned for %q and were both told leader at the same instant; election ids %q / %q",
+						a.listen, a.peer, b.listen, b.peer, ra.key, ra.id, rb.id), replay)
 			}
-			s.Op(fmt.Sprintf("contend %d %s %s %s %s", idx, vfutil.HexS(a.listen), vfutil.HexS(a.peer), vfutil.HexS(b.listen), vfutil.HexS(b.peer)))
-			idx++
-			switch {
-			case !ra.accepted || !rb.accepted:
-				s.Count("contend_config_refused")
-			case !ra.ran || !rb.ran:
-				s.Violate("runcluster-did-not-campaign", "runCluster returned without campaigning", replay)
-			default:
-				s.Count("contend_both_campaigned")
-				s.Distinct(fmt.Sprintf("%v|%v", a, b))
-				aLead := ra.err == nil && ra.role == cluster.RoleLeader
-				bLead := rb.err == nil && rb.role == cluster.RoleLeader
-				if ra.key == rb.key && aLead && bLead {
-					s.Violate("two-hosts-told-leader",
-						fmt.Sprintf("host A (listen=%q listenPeer=%q) and host B (listen=%q listenPeer=%q) both campaigned for %q and were both told leader at the same instant; election ids %q / %q",
-							a.listen, a.peer, b.listen, b.peer, ra.key, ra.id, rb.id), replay)
-				}
-				if ra.key != rb.key {
-					s.Violate("election-key-differs", fmt.Sprintf("same source, keys %q / %q", ra.key, rb.key), replay)
-				}
-				if !aLead {
-					s.Violate("first-campaign-on-free-key-refused", fmt.Sprintf("role=%v err=%v", ra.role, ra.err), replay)
-				}
+			if ra.key != rb.key {
+				s.Count("contend_keys_differ") // same source double => same key; recorded, not a C15 clause
 			}
 		}
 	}
 
+	// ---- the lease as the REAL run() writes it vs the renew period the REAL ticker uses
+	leaseTTL := func(extra string, lease, renew int64, src string) {
+		st.VerifReset(1000)
+		h := vfC15Host{listen: "10.0.0.1:18001"}
+		y := h.yaml(st.Addr(), true, extra)
+		run := vfC15RunHost(t, st, dir, y)
+		replay := map[string]interface{}{"cluster_yaml": extra}
+		out := "refused"
+		if run.accepted && run.ran {
+			out = fmt.Sprintf("ttl=%d renew=%d", run.ttlMs/1000, int64(run.renew))
+			s.Count("leasettl_" + src)
+			// what C15 needs: a leader learns of a failed renewal one renew period
+			// after its last success; its lease must not be takeable before that
+			if run.ttlMs <= run.renew.Milliseconds() {
+				s.Violate("lease-ends-before-next-renewal",
+					fmt.Sprintf("run() wrote a lease of %d ms to the store while the ticker renews every %v: the lease can be taken between two renewals of a healthy leader", run.ttlMs, run.renew), replay)
+			}
+			if !run.leader {
+				s.Count("leasettl_not_leader")
+			}
+		} else if run.accepted {
+			s.Violate("run-did-not-campaign", "run() returned without campaigning", replay)
+		}
+		s.Op(fmt.Sprintf("leasettl %d %d %d", idx, lease, renew), fmt.Sprintf("#%d %s", idx, out))
+		idx++
+	}
+	if replayYaml != "" {
+		leaseTTL(replayYaml, 0, 0, "replay")
+		return
+	}
+	if !replaying {
+		sec := int64(time.Second)
+		for _, l := range []int64{0, 1, sec, 3 * sec, 3*sec + sec/2, 4 * sec, 5 * sec, 9 * sec, 10 * sec, 60 * sec, 600 * sec, 700 * sec} {
+			for _, rv := range []int64{0, 1, sec, 2 * sec, 3 * sec, l / 3, l/3 + 1, l} {
+				extra := ""
+				if l != 0 {
+					extra += fmt.Sprintf("  leaseTimeout: %dns\n", l)
+				}
+				if rv != 0 {
+					extra += fmt.Sprintf("  leaseRenewInterval: %dns\n", rv)
+				}
+				if extra == "" {
+					extra = "  # defaults\n"
+				}
+				leaseTTL(extra, l, rv, "grid")
+			}
+		}
+	}
+
+	// ---- one instance, its client shared by two elections used concurrently, a reply stalled
+	if !replaying {
+		for round := 0; round < vfutil.Scale(20, 200); round++ {
+			st.VerifReset(int64(1000 + round))
+			cfg := config.RedisConfig{Addresses: []string{st.Addr()}, Type: config.RedisTypeStandalone}
+			other, err := cluster.NewRedisCluster(context.Background(), cfg, 3)
+			if err != nil {
+				t.Fatal(err)
+			}
+			mine, err := cluster.NewRedisCluster(context.Background(), cfg, 3)
+			if err != nil {
+				t.Fatal(err)
+			}
+			// k2 is held by somebody else; k1 is free
+			other.NewElection(context.Background(), "k2", "other").Campaign(context.Background())
+			e1 := mine.NewElection(context.Background(), "k1", "me")
+			e2 := mine.NewElection(context.Background(), "k2", "me")
+			first, second := e1, e2
+			swap := round%2 == 1
+			if swap {
+				first, second = e2, e1
+			}
+			held, release := st.VerifHoldEvalReply()
+			type res struct {
+				role cluster.ClusterRole
+				err  error
+			}
+			c1, c2 := make(chan res, 1), make(chan res, 1)
+			go func() { ro, er := first.Campaign(context.Background()); c1 <- res{ro, er} }()
+			<-held
+			go func() { ro, er := second.Campaign(context.Background()); c2 <- res{ro, er} }()
+			time.Sleep(time.Duration(r.Intn(3)) * time.Millisecond)
+			release()
+			r1, r2 := <-c1, <-c2
+			rk1, rk2 := r1, r2
+			if swap {
+				rk1, rk2 = r2, r1
+			}
+			s.Op(fmt.Sprintf("shared %d %d", idx, round))
+			idx++
+			s.Count("shared_client_rounds")
+			replay := map[string]interface{}{"shared": fmt.Sprintf("round %d swap=%v", round, swap)}
+			if rk2.err == nil && rk2.role == cluster.RoleLeader {
+				s.Violate("success-over-foreign-lease", "instance was told leader for k2 (held by another instance) by an answer that belongs to its concurrent campaign for k1", replay)
+			}
+			if rk1.err != nil || rk1.role != cluster.RoleLeader {
+				s.Count("shared_client_k1_not_leader")
+			}
+			other.Close()
+			mine.Close()
+		}
+	}
+
 	// ---- Renew vs its context deadline when the lease store stalls (recorded only)
-	if replayPair == nil && replayTicker == "" {
+	if !replaying {
 		st.VerifReset(1000)
 		cl, err := cluster.NewRedisCluster(context.Background(), config.RedisConfig{Addresses: []string{st.Addr()}, Type: config.RedisTypeStandalone}, 3)
 		if err != nil {
@@ -430,10 +485,13 @@ func TestVerifC15Cmd(t *testing.T) {
 
 	// ---- clusterTicker with a scripted election, virtual time
 	tick := func(leader bool, R time.Duration, n int, script []string, src string) {
-		*config.GetSyncerConfig() = config.SyncConfig{Cluster: &config.ClusterConfig{GroupName: "g1", LeaseTimeout: 3 * R, LeaseRenewInterval: R}}
+		lease := 3 * R
+		*config.GetSyncerConfig() = config.SyncConfig{Cluster: &config.ClusterConfig{GroupName: "g1", LeaseTimeout: lease, LeaseRenewInterval: R}}
+		ttlMs := int64(lease/time.Second) * 1000 // the lease the store holds (cmd/syncer.go run(): whole seconds)
 		fake := &vfC15Fake{script: script}
 		var closedAt int64 = -1
 		var closedErr error
+		horizon := time.Duration(n)*R + R/2
 		synctest.Test(t, func(t *testing.T) {
 			fake.start = time.Now()
 			cmd := NewSyncerCmd()
@@ -455,7 +513,7 @@ func TestVerifC15Cmd(t *testing.T) {
 					closedErr = wait.Error()
 				}
 			}()
-			time.Sleep(time.Duration(n)*R + R/2)
+			time.Sleep(horizon)
 			synctest.Wait()
 			if !wait.IsClosed() {
 				forced = true
@@ -486,40 +544,40 @@ func TestVerifC15Cmd(t *testing.T) {
 		if closedAt >= 0 {
 			closed = fmt.Sprintf("%d:%s", closedAt, vfC15ErrClass(closedErr))
 		}
+		// exact instants and the close reason are compared with the model only (tie)
 		s.Op(op, fmt.Sprintf("#%d calls=%s closed=%s", idx, calls, closed))
 		idx++
 		s.Count("ticker_" + src)
-		// monitors (independent of Lean): group the calls by instant = by tick
-		for i := 0; i < len(fake.calls); {
-			j := i
-			allFail := true
-			for j < len(fake.calls) && fake.calls[j] == fake.calls[i] {
-				allFail = allFail && fake.fails[j]
-				j++
-			}
-			tickAt := fake.calls[i]
-			if leader && allFail {
-				s.Count("ticker_renew_failed")
-				if closedAt < 0 || closedAt > tickAt || closedErr == nil {
-					s.Violate("failed-renewal-not-acted-on", fmt.Sprintf("every renewal attempt of the tick at %d ms failed, but the syncer's wait was closed=%s (the instance keeps leading)", tickAt, closed), replay)
-				}
-				if j < len(fake.calls) {
-					s.Violate("failed-renewal-not-acted-on", fmt.Sprintf("renewal failed at %d ms, yet the ticker called the election again at %d ms", tickAt, fake.calls[j]), replay)
-				}
-			}
-			if !leader && fake.kinds[i] == "c" && !fake.fails[i] && i < len(script) && (script[i] == "ld" || script[i] == "ok") {
-				s.Count("ticker_follower_won")
-				if closedAt != tickAt || closedErr != nil {
-					s.Violate("follower-win-not-acted-on", fmt.Sprintf("campaign won at %d ms but wait closed=%s", tickAt, closed), replay)
-				}
-			}
-			if i > 0 && tickAt-fake.calls[i-1] != R.Milliseconds() {
-				s.Violate("ticker-period", fmt.Sprintf("calls at %d and %d ms, LeaseRenewInterval=%v", fake.calls[i-1], tickAt, R), replay)
-			}
-			i = j
+		if closedAt >= 0 {
+			s.Count("ticker_closed_" + vfC15ErrClass(closedErr))
 		}
-		if len(fake.calls) > 0 && fake.calls[0] != R.Milliseconds() {
-			s.Violate("ticker-period", fmt.Sprintf("first call at %d ms, LeaseRenewInterval=%v", fake.calls[0], R), replay)
+		// monitor (independent of Lean; only what C15 needs): while the instance
+		// keeps leading (its wait is open) it is never more than one ttl past
+		// its last successful renewal — the campaign that made it leader counts
+		// as success at 0. How often it renews, how many attempts it makes and
+		// in which millisecond it reacts is its own business.
+		if leader {
+			last := int64(0)
+			end := horizon.Milliseconds()
+			if closedAt >= 0 {
+				end = closedAt
+			}
+			for i, c := range fake.calls {
+				if c > end {
+					break
+				}
+				if !fake.fails[i] {
+					if c-last > ttlMs {
+						s.Violate("leads-past-its-lease", fmt.Sprintf("no successful renewal between %d ms and %d ms (lease %d ms) while the syncer's wait stayed open", last, c, ttlMs), replay)
+					}
+					last = c
+				} else {
+					s.Count("ticker_renew_attempt_failed")
+				}
+			}
+			if end-last > ttlMs {
+				s.Violate("leads-past-its-lease", fmt.Sprintf("last successful renewal at %d ms, lease %d ms, but the syncer's wait was still open at %d ms (closed=%s): the instance keeps leading after its lease can be taken", last, ttlMs, end, closed), replay)
+			}
 		}
 	}
 	if replayTicker != "" {
@@ -536,10 +594,11 @@ func TestVerifC15Cmd(t *testing.T) {
 		}
 		return
 	}
-	if replayPair != nil {
+	if replaying {
 		return
 	}
-	// all scripts of length <= 4 (quick) / 6 (thorough)
+	// all scripts of length <= 4 (quick) / 6 (thorough), each also followed by a
+	// long run of failures (a lease that is really gone / a store that stays down)
 	for _, leader := range []bool{true, false} {
 		alpha := []string{"ok", "nl", "err"}
 		if !leader {
@@ -549,6 +608,15 @@ func TestVerifC15Cmd(t *testing.T) {
 		var rec func(p []string)
 		rec = func(p []string) {
 			tick(leader, time.Second, len(p)+2, append([]string{}, p...), "exhaustive")
+			if leader && len(p) <= 3 {
+				for _, f := range []string{"nl", "err"} {
+					long := append([]string{}, p...)
+					for i := 0; i < 10; i++ {
+						long = append(long, f)
+					}
+					tick(leader, time.Second, len(long)+2, long, "exhaustive_then_down")
+				}
+			}
 			if len(p) == maxLen {
 				return
 			}
@@ -569,19 +637,12 @@ func TestVerifC15Cmd(t *testing.T) {
 		for j := range sc {
 			sc[j] = vfutil.Pick(r, alpha)
 		}
-		R := time.Duration(r.Range(1000, 200000)) * time.Millisecond
-		tick(leader, R, r.Range(1, n+2), sc, "gen")
+		if leader && r.Chance(1, 3) {
+			for j := 0; j < 10; j++ {
+				sc = append(sc, "nl")
+			}
+		}
+		R := time.Duration(r.Range(1, 200)) * time.Second
+		tick(leader, R, r.Range(1, len(sc)+2), sc, "gen")
 	}
-}
-
-// peerOrDerived is the peer address the configuration resolves to (for the
-// `unspec` flag of the ident op, computed without the code under test).
-func (run vfC15HostRun) peerOrDerived(h vfC15Host) string {
-	switch {
-	case h.peer != "":
-		return h.peer
-	case h.listen != "":
-		return h.listen
-	}
-	return "127.0.0.1:18001"
 }
